@@ -128,6 +128,82 @@ Proof.
 Qed.
 
 
+(* ---- registry, creation stage, registry lock: which events touch them ------------------------------------------- *)
+Definition reg_ev (e : event) : bool :=
+  match e with ENewInst _ _ | EState _ _ | ERegAdd _ _ | ERegDel _ | ESpawn _ _ | EBegin _ | EShutdownBegin => true | _ => false end.
+
+Lemma step_core_regs s th e s' : step_core s th e = Some s' -> reg_ev e = false ->
+  running s' = running s /\ stage s' = stage s /\ thinst s' = thinst s /\ reg_lock s' = reg_lock s.
+Proof.
+  intros H He. unfold step_core in H. destruct e; try discriminate He; kind_cases H.
+  all: try match goal with |- context[match dpc ?t with _ => _ end] => destruct (dpc t) as [| | |? [|? ?]| |] end.
+  all: unfold set_pc, end_finish, write_status, upd_inst, upd_vis; cbn;
+       repeat match goal with |- context[match ?x with _ => _ end] => destruct x; cbn end; try (repeat split; reflexivity).
+  fold (upd_inst). 
+  assert (G : forall l s0, let s1 := fold_left (fun s i => match get i (insts s) with Some x => s <| insts := set i (x <| f_stopped := true |>) (insts s) |> | None => s end) l s0 in
+               running s1 = running s0 /\ stage s1 = stage s0 /\ thinst s1 = thinst s0 /\ reg_lock s1 = reg_lock s0).
+  { induction l as [|a l IH]; intros s0; cbn; [repeat split|]. destruct (get a (insts s0)); [|apply IH].
+    destruct (IH (s0 <| insts := set a (i <| f_stopped := true |>) (insts s0) |>)) as (A & B & C & D). cbn in *. auto. }
+  apply G.
+Qed.
+
+Lemma flush_stage th s : stage (flush th s) = stage s.
+Proof.
+  unfold flush. destruct (get th (threads s)) as [t|]; [|reflexivity]. destruct (pend t) as [r|]; [|reflexivity].
+  destruct r; unfold apply_release, end_release_early, upd_inst, set_thread; cbn;
+  repeat match goal with |- context[match ?x with _ => _ end] => destruct x; cbn end; reflexivity.
+Qed.
+Lemma flush_reg_lock th s :
+  reg_lock (flush th s) = match pend (get_thread s th) with Some RUnlock => None | _ => reg_lock s end.
+Proof.
+  unfold flush, get_thread. destruct (get th (threads s)) as [t|]; [|reflexivity]. destruct (pend t) as [r|]; [|reflexivity].
+  destruct r; unfold apply_release, end_release_early, upd_inst, set_thread; cbn;
+  repeat match goal with |- context[match ?x with _ => _ end] => destruct x; cbn end; reflexivity.
+Qed.
+
+Lemma eff_new s th i n s' : step_core s th (ENewInst i n) = Some s' ->
+  get i (insts s) = None /\ running s' = running s /\ thinst s' = thinst s /\ reg_lock s' = reg_lock s /\
+  stage s' = set i (th, 0) (stage s).
+Proof. intros H. unfold step_core in H. kind_cases H. unfold has in *. destruct (get i (insts s)); [discriminate|]. repeat split. Qed.
+Lemma eff_state s th i s0 s' : step_core s th (EState i s0) = Some s' ->
+  running s' = running s /\ thinst s' = thinst s /\ reg_lock s' = reg_lock s /\
+  (stage s' = stage s \/ stage s' = set i (th, 1) (stage s)).
+Proof.
+  intros H. unfold step_core in H. kind_cases H.
+  all: unfold set_pc, end_finish, write_status, upd_inst, upd_vis; cbn;
+       repeat match goal with |- context[match ?x with _ => _ end] => destruct x; cbn end; auto.
+Qed.
+Lemma eff_regadd s th i n s' : step_core s th (ERegAdd i n) = Some s' ->
+  exists x, get i (insts s) = Some x /\ nm x = n /\ gonepc (pc x) = false /\ reg_lock s = None /\
+    running s' = set n i (running s) /\ stage s' = set i (th, 2) (stage s) /\ thinst s' = thinst s /\ reg_lock s' = reg_lock s /\
+    insts s' = insts s.
+Proof.
+  intros H. unfold step_core in H. kind_cases H. split_andb. eexists. split; [reflexivity|]. unfold lock_free in *.
+  destruct (reg_lock s) eqn:El; [discriminate|]. destruct (pc i0); try discriminate. repeat split; auto.
+Qed.
+Lemma eff_regdel s th i s' : step_core s th (ERegDel i) = Some s' ->
+  exists x, get i (insts s) = Some x /\ gonepc (pc x) = true /\
+    running s' = del (nm x) (running s) /\ stage s' = stage s /\ thinst s' = thinst s /\ reg_lock s' = reg_lock s /\ insts s' = insts s.
+Proof.
+  intros H. unfold step_core in H. kind_cases H. eexists. split; [reflexivity|]. split_andb.
+  destruct (pc i0); try discriminate; try (rewrite andb_false_r in *; discriminate). repeat split; auto.
+Qed.
+Lemma eff_spawn s th i n s' : step_core s th (ESpawn i n) = Some s' ->
+  at_stage s th i 2 = true /\ stage s' = set i (th, 3) (stage s) /\ running s' = running s /\ thinst s' = thinst s /\ reg_lock s' = reg_lock s.
+Proof. intros H. unfold step_core in H. kind_cases H; repeat split; auto. Qed.
+Lemma eff_begin s th i s' : step_core s th (EBegin i) = Some s' ->
+  (exists c, get i (stage s) = Some (c, 3)) /\ (exists x, get i (insts s) = Some x) /\
+  thinst s' = set th i (thinst s) /\ stage s' = del i (stage s) /\ running s' = running s /\ reg_lock s' = reg_lock s /\ insts s' = insts s.
+Proof.
+  intros H. unfold step_core in H. break_step H. subst s'.
+  destruct (get i (stage s)) as [[c k]|] eqn:Es; [|discriminate].
+  do 3 (destruct k as [|k]; try discriminate). destruct k; [|discriminate]. repeat split; eauto.
+Qed.
+Lemma eff_sdbegin s th s' : step_core s th EShutdownBegin = Some s' ->
+  reg_lock s = None /\ reg_lock s' = Some th /\ running s' = running s /\ stage s' = stage s /\ thinst s' = thinst s.
+Proof. intros H. unfold step_core in H. kind_cases H. unfold lock_free in *. destruct (reg_lock s) eqn:El; [discriminate|]. repeat split; auto. Qed.
+(*STOP*)
+
 (* ---- observer: o_byapi, o_insnap, o_stopreq ---------------------------------------------------------------------- *)
 Definition oai_le (x x' : oinst) : Prop :=
   o_byapi x' = o_byapi x /\ o_insnap x' = o_insnap x /\ (o_stopreq x = true -> o_stopreq x' = true).
